@@ -13,7 +13,7 @@ from props import base
 from props.c09 import evidence, chosen, has_tie, tie_explained
 from shexer import consts as C
 
-PROPS_MODULES = ["ShexerModel.Props.C08", "ShexerModel.Props.GenStr"]
+PROPS_MODULES = ["ShexerModel.Props.C08", "ShexerModel.Props.GenStrCorners", "ShexerModel.Props.GenStrLiteral"]
 DEPS = ["S.remove_corners", "S.decide_literal_type"]
 replay = base.replay
 
